@@ -26,8 +26,8 @@ SAMPLES = {
     "S2": [{"a1": {"x": 1, "y": 2, "z": 3}, "m": {"k1": {"q": 1}}, "dict_field": {"u": 1, "v": "s"}},
            {"a1": {"x": 1, "y": 2, "z": 3, "w": 4}, "m": {"k2": {"q": 2}}, "b": {"x": 1, "y": 5}},
            {"b": {"x": 2, "y": 5, "z": 6, "w": 7}, "when": "2020-01-01", "dict_field": {"t": 2}}],
-    "S3": [{"s": "1", "t": "true", "d": "2020-01-01T10:00:00", "l": "lit", "ключ": "ü"},
-           {"s": "2.5", "t": "false", "d": "2021-01-01T10:00:00", "l": "lot", "ключ": "é"},
+    "S3": [{"s": "1", "t": "true", "d": "2020-01-01T10:00:00", "l": "lit", "ключ": "ü", "u": "x\u2028y", "k\u0085ey": 1},
+           {"s": "2.5", "t": "false", "d": "2021-01-01T10:00:00", "l": "lot", "ключ": "é", "u": "x\u2029z", "k\u0085ey": 2},
            {"s": "3", "t": "true", "d": None, "l": "lit", "opt": ["1", "2"]}],
 }
 
